@@ -188,7 +188,8 @@ template <class F> Outcome observe(F &&f) {
     catch (const std::out_of_range &e) { o.kind = K_OUT_OF_RANGE; o.what = e.what(); }
     catch (const std::invalid_argument &e) { o.kind = K_INVALID_ARGUMENT; o.what = e.what(); }
     catch (const verif::assertion_failure &a) {
-        o.kind = a.message == "Char formatting does not currently support padding" ? K_CHARPAD_ASSERT : K_OTHER;
+        // which assertion this is, is decided by the reference interpreter's prediction for the call (run_and_judge), never by the wording
+        o.kind = K_CHARPAD_ASSERT;
         o.what = "ST_ASSERT failed: " + a.message + " (" + a.file + ":" + std::to_string(a.line) + ")";
     }
     catch (...) { o.kind = K_OTHER; o.what = verif::describe_current_exception(); }
